@@ -361,6 +361,8 @@ def lean_files(idx=None, bbox=None, res=None, sites=None, scan=None, guard=None)
              "/-- `funcs` wraps exactly the tabulated labellers, in the same order -/\n"
              "theorem funcs_all : Generated.funcs.map (fun f => (f.name, f.table)) = Generated.all := by decide +kernel\n\n"
              "theorem funcs_cls : ∀ f ∈ Generated.funcs, f.cls ≠ .other := by decide +kernel\n\n"
+             "/-- the labellers tabulated from the live module are exactly the 33 the property quantifies over -/\n"
+             "theorem labellers_pinned : Generated.funcs.map (fun f => f.name) = expectedLabellerNames := by decide +kernel\n\n"
              "/-- the resolution table as a whole is the model's -/\n"
              "theorem resolution_ok : Generated.resolution = Generated.funcs.map expectedEntry := by\n"
              "  simp only [Generated.resolution, Generated.funcs, List.map_cons, List.map_nil, "
@@ -453,7 +455,7 @@ def obligation_names(idx):
     for n, _, t in idx:
         out.append("MenpoModel.C15.GenProps.res_" + n)
     return out + ["MenpoModel.C15.GenProps." + x for x in
-                  ("all_wf", "funcs_all", "funcs_cls", "resolution_ok", "orderSites_ok", "labScan_ok", "live_labellers",
+                  ("all_wf", "funcs_all", "funcs_cls", "labellers_pinned", "resolution_ok", "orderSites_ok", "labScan_ok", "live_labellers",
                    "live_labellers_masks", "all_sorted", "live_labellers_gather", "live_entry")]
 
 
